@@ -27,6 +27,7 @@ META = {
     "trusted_base": ["trackers: C10/C12", "imputers: C06", "deterministic model and loss"],
     "assumptions": [],
 }
+META["explanation"] += ' Round 5: every chain link books its credit; DEP-C13 PAIR (the loss is the value of the single pair). HAZARD: constructs that do not mean what they look like, met in the analysed code (defaults evaluated once, class-level containers changed through self, dict.fromkeys with a shared mutable value, late-binding lambdas, truth value of objects that define __len__) are reported by every check.'
 MIN_INSTANCES = {"KEY": 1, "COMPL": 2, "NEW": 2, "C0": 3, "VAR": 2, "OFFSET": 3, "N": 1}
 
 
